@@ -96,6 +96,18 @@ func (ex *Exec) loopEnv(fr *Frame, st *State) *Env {
 	}
 	for n, sv := range fr.debugVals {
 		if _, ok := env.vars[n]; ok {
+			// a parameter that has been reassigned: its plain name means the
+			// current value (NAME0 the entry value), provided the new value
+			// was computed on every path to this point
+			if _, isParam := fr.params[n]; isParam && phiFor[n] == nil && fr.curBlock != nil {
+				if _, same := sv.(*ssa.Parameter); !same {
+					if in, isInstr := sv.(ssa.Instruction); isInstr && in.Block() != nil && (in.Block() == fr.curBlock || in.Block().Dominates(fr.curBlock)) {
+						if val, ok := fr.regs[sv]; ok {
+							env.vars[n] = TV{val, sv.Type()}
+						}
+					}
+				}
+			}
 			continue
 		}
 		if val, ok := fr.regs[sv]; ok {
@@ -459,6 +471,21 @@ func (ex *Exec) evalIndex(base, idx TV, env *Env) TV {
 	case LitMapV:
 		mt := b.gi.g.Type().(*types.Pointer).Elem().Underlying().(*types.Map)
 		return TV{ex.lookupLiteralMap(b.gi, mt, idx.V, false), mt.Elem()}
+	case CellSlice:
+		// a variadic argument list: the cells are known one by one; a symbolic
+		// index selects among them
+		if av, ok := env.st.cells[b.C].(ArrV); ok {
+			if srt, ok := scalarSort(av.Elem); ok && b.Hi <= len(av.Elems) && b.Hi > b.Lo {
+				if n, err := strconv.Atoi(i.S); err == nil && b.Lo+n < b.Hi {
+					return TV{av.Elems[b.Lo+n], av.Elem}
+				}
+				t := ex.term(av.Elems[b.Hi-1], srt)
+				for k := b.Hi - 2; k >= b.Lo; k-- {
+					t = Ite(Eq(i, IntLit(int64(k-b.Lo))), ex.term(av.Elems[k], srt), t)
+				}
+				return TV{SV{t}, av.Elem}
+			}
+		}
 	}
 	return ex.evalErr("index of %T", base.V)
 }
@@ -606,6 +633,15 @@ func (ex *Exec) evalCall(x *ast.CallExpr, env *Env) TV {
 			return TV{SV{IntLit(int64(len(v.Elems)))}, types.Typ[types.Int]}
 		}
 		return ex.evalErr("len of %T", a.V)
+	case "counttrue":
+		// counttrue(s): the number of true elements of a []bool
+		a := ex.eval(x.Args[0], env)
+		if sv, ok := a.V.(SV); ok && sv.T.Sort == SSlice {
+			E := ex.heapRead(env.st, elemKey(types.Typ[types.Bool]), ArraySort(SInt, ArraySort(SInt, SBool)))
+			off := app(SInt, "sl.off", sv.T)
+			return TV{SV{app(SInt, "cnt.bool", Select(E, app(SInt, "sl.arr", sv.T)), off, app(SInt, "+", off, app(SInt, "sl.len", sv.T)))}, types.Typ[types.Int]}
+		}
+		return ex.evalErr("counttrue of %T", a.V)
 	case "cap":
 		a := ex.eval(x.Args[0], env)
 		return TV{SV{app(SInt, "sl.cap", ex.term(a.V, SSlice))}, types.Typ[types.Int]}
@@ -792,6 +828,48 @@ func (ex *Exec) evalQuant(kind string, x *ast.CallExpr, env *Env) TV {
 		srt = SReal
 	case "foralls", "existss":
 		srt = SStr
+	}
+	if len(x.Args) == 4 && srt == SInt {
+		// literal bounds spanning a few values (a variadic argument list of
+		// known length): expand into a conjunction / disjunction. Only
+		// syntactic literals are looked at, so that nothing is evaluated twice.
+		litOf := func(e ast.Expr) (int, bool) {
+			if bl, ok := e.(*ast.BasicLit); ok && bl.Kind == token.INT {
+				n, err := strconv.Atoi(bl.Value)
+				return n, err == nil
+			}
+			if c, ok := e.(*ast.CallExpr); ok && len(c.Args) == 1 {
+				if f, ok := c.Fun.(*ast.Ident); ok && f.Name == "len" {
+					if an, ok := c.Args[0].(*ast.Ident); ok {
+						if tv, ok := env.vars[an.Name]; ok {
+							if cs, ok := tv.V.(CellSlice); ok {
+								return cs.Hi - cs.Lo, true
+							}
+						}
+					}
+				}
+			}
+			return 0, false
+		}
+		l, ok1 := litOf(x.Args[1])
+		h, ok2 := 0, false
+		if ok1 {
+			h, ok2 = litOf(x.Args[2])
+		}
+		if ok1 && ok2 && h-l <= 6 {
+			isAll := strings.HasPrefix(kind, "forall")
+			var parts []Term
+			for k := l; k < h; k++ {
+				ce := env.child()
+				ce.bound[id.Name] = IntLit(int64(k))
+				delete(ce.vars, id.Name)
+				parts = append(parts, ex.term(ex.eval(x.Args[3], ce).V, SBool))
+			}
+			if isAll {
+				return TV{SV{And(parts...)}, types.Typ[types.Bool]}
+			}
+			return TV{SV{Or(parts...)}, types.Typ[types.Bool]}
+		}
 	}
 	ex.sc.nfresh++
 	ex.sc.inQuant++
